@@ -1,9 +1,9 @@
 """C17 - lazy expressions evaluate to what the eager expression would.
 
 Part 1 (programs): every expression tree up to a depth / call-node bound over
-traced fixture callables (pure, raising, stateful, a class with attributes and
-__call__, a traced instance), traced and plain (hashable and unhashable)
-constants, positional / keyword lazy arguments, attribute / item / call chains
+traced fixture callables (pure, raising, stateful, stateful returning None, a
+class with attributes and __call__, a traced instance), traced and plain
+(hashable and unhashable) constants, positional / keyword lazy arguments, attribute / item / call chains
 and every cache_result_/lazy_result_ flag per call node.  Each tree is run
 through one fixed history (make, make, [clear_cache, make, make,]
 make(pickled), make(gzip-pickled), make, [clear_object, deref]) on the real lazy_fns
@@ -12,11 +12,14 @@ after every step: value (or exception), the ordered log of fixture calls
 (evaluation count and order), cache_info(), object_info(), object identity.
 
 Part 2 (cache histories, explicit-state BFS): (a) func_utils.LruCache with
-maxsize 1..3 under getitem/get/set/insert/clear; (b) the lazy layer with the
-LruCache instance behind LazyFn.result_ bounded to 2..3, over make(e_i) for 4
+maxsize 1..3 under getitem/get/set/insert/clear, stored values including the
+falsy None, 0, ''; (b) the lazy layer with the LruCache instance behind
+LazyFn.result_ bounded to 2..3, over make(e_i) for 4
 cached expressions, clear_cache and an uncached twin, directly and through
-pickled bytes, five expression families; (c) the object registry behind
-lazy_result_ handles bounded to 1..2 under new-handle / deref / use / clear;
+pickled bytes, six expression families (one of cached calls whose value is
+None); (c) the object registry behind handles bounded to 1..2 under
+new-handle / deref / use / clear, handles made by lazy_result_ (values: fresh
+lists; None) and by LazyObject.new(None) / LazyObject.new(0);
 (d) one structured family at the shipped bound 128.  A state is the operation
 history; it is replayed on a fresh cache; canonical observable state
 deduplicates; every state is compared with an OrderedDict LRU reference.
@@ -164,7 +167,7 @@ class TreeGen:
       return
     for flag in FLAGS:
       for x in self.lst('num', d - 1, k - 1):
-        for name in ('tick', 'raiser', 'SCALE3'):
+        for name in ('tick', 'raiser', 'SCALE3', 'nothing'):
           yield _call(('f', name), [x], [], flag)
         yield _call(('f', 'mul'), [x], [('y', ('c', 2))], flag)
       for kx in range(k):
@@ -404,8 +407,13 @@ def _flags_unit(_):
 # ---------------------------------------------------------------------------
 
 LRU_KEYS = ('a', 'b', 'c', 'd')
+# stored values: 'k0' (set) / 'k1' (insert) for every key, and - a value is a
+# value - the falsy ones None, 0, '' under the first key
+LRU_FALSY = (None, 0, '')
 LRU_OPS = ([('getitem', k) for k in LRU_KEYS] + [('get', k) for k in LRU_KEYS]
            + [('set', k) for k in LRU_KEYS] + [('insert', k) for k in LRU_KEYS]
+           + [('set', k, i) for k in LRU_KEYS[:1]
+              for i in range(len(LRU_FALSY))]
            + [('clear',)])
 _NO = '<absent>'
 
@@ -423,8 +431,9 @@ def _lru_apply(cache, ref, op):
     else:
       got = cache.get(op[1], _NO)
   elif op[0] == 'set':
-    ref.put(op[1], op[1] + '0')
-    cache[op[1]] = op[1] + '0'
+    value = LRU_FALSY[op[2]] if len(op) > 2 else op[1] + '0'
+    ref.put(op[1], value)
+    cache[op[1]] = value
     exp = got = None
   elif op[0] == 'insert':
     ref.put(op[1], op[1] + '1')
@@ -472,7 +481,8 @@ def _lru_run(st, maxsize, history):
                            'history': history[:i + 1]})
       return None
   obs = _lru_observe(cache)
-  return (tuple(obs['keys']), tuple(obs['values']), obs['info'])
+  return (tuple(obs['keys']), tuple(repr(v) for v in obs['values']),
+          obs['info'])
 
 
 def _bfs(st, tag, ops, run, depth, enabled=None):
@@ -525,6 +535,7 @@ def families():
   c = lambda v: ('c', v)
   e0, e1 = _s(c(0), 'c'), _s(c(1), 'c')
   a0 = _call(('f', 'Acc'), [c(0)], [], 'c')
+  n0 = _s(c(0), 'c', 'nothing')
   return {
       # by-value keys
       'flat': ([_s(c(i), 'c') for i in range(4)], _s(c(0), '')),
@@ -543,6 +554,12 @@ def families():
       # the same call with a plain and with a traced constant argument
       'traced_const': ([_s(c(1), 'c'), _s(('lc', 1), 'c'), _s(c(2), 'c'),
                         _s(('lc', 2), 'c')], _s(('lc', 1), '')),
+      # cached calls whose value is None (stateful initialisers), alone, as
+      # cached arguments of cached calls, next to a non-None entry
+      'none_valued': ([n0, _s(c(1), 'c', 'nothing'),
+                       _call(('f', 'mkdict'), [n0], [('k', e1)], 'c'),
+                       _s(n0, 'c')],
+                      _s(c(0), '', 'nothing')),
   }
 
 
@@ -726,15 +743,26 @@ def _obj_enabled(history, op):
   return op[0] in ('new', 'clear_obj') or ('new', op[1]) in history
 
 
+def obj_slots(kind):
+  """How slot j gets its handle: ('lazy', expr with lazy_result_) or
+  ('direct', value) = LazyObject.new(value)."""
+  if kind == 'none':
+    # handles whose value is None (through lazy_result_ and directly) or falsy
+    return [('lazy', _s(('c', 0), 'l', 'nothing')), ('direct', None),
+            ('direct', 0)]
+  return [('lazy', _s(('c', j), 'l')) for j in range(OBJ_SLOTS)]
+
+
 class ObjSystem:
 
-  def __init__(self, maxsize, mode):
-    self.maxsize, self.mode = maxsize, mode
-    self.news = [_s(('c', j), 'l') for j in range(OBJ_SLOTS)]
+  def __init__(self, maxsize, mode, kind='stamp'):
+    self.maxsize, self.mode, self.kind = maxsize, mode, kind
+    self.news = obj_slots(kind)
     self.uses = [_call(('f', 'first'), [('v', j)], [], '')
                  for j in range(OBJ_SLOTS)]
     self.memo = {}
-    self.new_exprs = [build(a, self.memo) for a in self.news]
+    self.new_exprs = [build(a, self.memo) if how == 'lazy' else None
+                      for how, a in self.news]
 
   def run_ref(self, history):
     fx.reset()
@@ -745,7 +773,9 @@ class ObjSystem:
       v = None
       try:
         if op[0] == 'new':
-          v = m.env[op[1]] = m.make(self.news[op[1]])
+          how, what = self.news[op[1]]
+          v = m.env[op[1]] = (m.make(what) if how == 'lazy'
+                              else m.new_handle(what))
           made[op[1]] = m.objs.d[v.serial]
           o = ('ok', 'handle')
         elif op[0] == 'deref':
@@ -761,7 +791,7 @@ class ObjSystem:
         o = _err(e)
       serials = {h.serial: j for j, h in m.env.items()}
       obs = {'out': o, 'calls': list(fx.CALLS[n0:]), 'obj': m.objs.info(),
-             'order': [(serials.get(k, 'dead'), tuple(m.objs.d[k]))
+             'order': [(serials.get(k, 'dead'), repr(_norm_ref(m, m.objs.d[k])))
                        for k in m.objs.d]}
     return obs
 
@@ -778,7 +808,9 @@ class ObjSystem:
       v = None
       try:
         if op[0] == 'new':
-          v = env[op[1]] = lf.maybe_make(pick(self.new_exprs[op[1]]))
+          how, what = self.news[op[1]]
+          v = env[op[1]] = (lf.maybe_make(pick(self.new_exprs[op[1]]))
+                            if how == 'lazy' else lf.LazyObject.new(what))
           made[op[1]] = cache.data.get(v)
           o = ('ok', 'handle' if _is_handle(v) and v.value is None
                else repr(v))
@@ -796,7 +828,7 @@ class ObjSystem:
       ids = {h.id: j for j, h in env.items()}
       obs = {'out': o, 'calls': list(fx.CALLS[n0:]),
              'obj': _impl_infos()[1],
-             'order': [(ids.get(k.id, 'dead'), tuple(cache.data[k]))
+             'order': [(ids.get(k.id, 'dead'), repr(_norm_impl(cache.data[k])))
                        for k in cache]}
     return obs
 
@@ -824,24 +856,26 @@ class ObjSystem:
     if what:
       st.violation(f'C17:object-registry:{history[-1][0]}:{what}',
                    {'maxsize': self.maxsize, 'mode': self.mode,
+                    'handles': self.news,
                     'history': history, 'expected': exp, 'observed': got},
                    replay={'part': 'obj', 'maxsize': self.maxsize,
-                           'mode': self.mode, 'history': history})
+                           'mode': self.mode, 'kind': self.kind,
+                           'history': history})
       return None
     filled = tuple(sorted({op[1] for op in history if op[0] == 'new'}))
     return (tuple(got['order']), got['obj'], filled)
 
 
 def _obj_unit(args):
-  maxsize, mode, depth = args
+  maxsize, mode, depth, kind = args
   st = Stats()
   with _Bounds(obj_max=maxsize):
-    sys_ = ObjSystem(maxsize, mode)
-    n = _bfs(st, ('obj', maxsize, mode), OBJ_OPS, lambda h: sys_.run(st, h),
-             depth, enabled=_obj_enabled)
+    sys_ = ObjSystem(maxsize, mode, kind)
+    n = _bfs(st, ('obj', maxsize, mode, kind), OBJ_OPS,
+             lambda h: sys_.run(st, h), depth, enabled=_obj_enabled)
   st.count('object_registry_states', n)
   st.sample({'part': 'object registry BFS', 'maxsize': maxsize, 'mode': mode,
-             'depth': depth, 'states': n})
+             'handles': sys_.news, 'depth': depth, 'states': n})
   return st
 
 
@@ -932,19 +966,24 @@ def run(ctx):
       + ('depth <= 2 and <= 3 call nodes' if quick else
          'depth <= 3 and <= 3 call nodes, plus depth <= 3 with exactly 4 call '
          'nodes over the single leaf 1,') + ' over traced {add, mul(y=kw), mkdict(p, k=kw), Acc (class; '
-      '.a, .scaled(x), __call__), raiser, tick (stateful), SCALE3 (traced '
+      '.a, .scaled(x), __call__), raiser, tick (stateful), nothing (stateful, '
+      'returns None), SCALE3 (traced '
       'instance; call, .k)}, leaves {1, trace(1), [3]}, item '
       "access ['k'],['p'], every flag in {none, cache_result_, lazy_result_} "
       'per call node; each tree through the history make, make [, '
       'clear_cache, make, make], make(pickle), make(gzip pickle), make [, '
       'clear_object, deref]. HISTORIES (BFS, all operation sequences up to depth '
       f'{depth} ({depth + 1} for LruCache), deduplicated by canonical '
-      'observable state): LruCache maxsize 1..3 x 17 operations (getitem/get/set/insert x 4 keys, clear);'
+      'observable state): LruCache maxsize 1..3 x 20 operations (getitem/get/'
+      "set/insert x 4 keys, set of None / 0 / '' under one key, clear);"
       ' lazy layer cache bounded to 2..3 x {make(e0..e3), clear_cache, '
-      'make(uncached twin)} x 5 expression families x {direct, pickled}'
+      'make(uncached twin)} x 6 expression families (one of None-valued cached'
+      ' calls) x {direct, pickled}'
       + ('' if quick else ' and bounded to 1..2 through gzip pickles') + '; '
       'handle registry bounded to 1..2 x {new, deref, use x 3 slots, '
-      'clear_object} x {direct, pickled}; bound 128: fill, touch every '
+      'clear_object} x {direct, pickled} x {handles of lazy_result_ stamp(j); '
+      'handles of lazy_result_ nothing(0), LazyObject.new(None), '
+      'LazyObject.new(0)}; bound 128: fill, touch every '
       'ordered subset of the oldest 3, overflow by 1..3, probe, on LruCache /'
       ' lazy / lazy pickled. distinct = distinct tree or distinct '
       '(system, history); every case is non-trivial')
@@ -960,6 +999,9 @@ def run(ctx):
       'a handle passed to a plain function is passed as a handle; exception '
       'messages are compared only for ValueError (the raiser fixture)',
       'pickling = the default pickler (cloudpickle), same process',
+      'None (and 0, \'\') is a value like any other: a cached call that '
+      'evaluates to None is evaluated once; a held handle of None '
+      'dereferences to None',
   ]
   only = getattr(ctx, 'only', None) or []
   if only:
@@ -982,8 +1024,8 @@ def run(ctx):
   if on('lru'):
     units += [('lru', (m, depth + 1)) for m in (1, 2, 3)]
   if on('obj'):
-    units += [('obj', (m, mode, depth)) for m in (1, 2)
-              for mode in ('direct', 'pickled')]
+    units += [('obj', (m, mode, depth, kind)) for m in (1, 2)
+              for mode in ('direct', 'pickled') for kind in ('stamp', 'none')]
   if on('bound'):
     units += [('bound', (layer, chunk)) for layer in
               ('LruCache', 'lazy', 'lazy-pickled')
@@ -1012,7 +1054,8 @@ def replay(ctx, data):
       LazySystem(r['family'], r['maxsize'], r['mode']).run(ctx, tup(r['history']))
   elif part == 'obj':
     with _Bounds(obj_max=r['maxsize']):
-      ObjSystem(r['maxsize'], r['mode']).run(ctx, tup(r['history']))
+      ObjSystem(r['maxsize'], r['mode'], r.get('kind', 'stamp')).run(
+          ctx, tup(r['history']))
   elif part == 'bound128':
     ctx.merge(_bound_unit((r['layer'], [r['history']])))
 
